@@ -12,6 +12,7 @@
 //! A panic inside `Interface::poll` in (a) or (b) is reported as `C10/panic/<site>` (no inbound
 //! garbage is involved there: the poll dies while producing frames for well-formed traffic).
 
+mod bfsx;
 mod c03;
 mod cat;
 pub mod mon;
@@ -303,6 +304,54 @@ pub fn run(tier: Tier) -> i32 {
         rep.samples.push(json!({"part": "tcp2", "classification": shape, "frame": fr}));
     }
 
+    // ---------------------------------------------------------------- (d) event sequences (BFS)
+    let lim = Limits { max_states: 20_000_000, max_wall_s: if tier == Tier::Quick { 30.0 } else { 600.0 } };
+    for (cfg, depth) in bfsx::configs(tier) {
+        let mut samples = vec![];
+        let mut found = vec![];
+        let t0 = std::time::Instant::now();
+        match bfs::<bfsx::EgBfs>("egress-seq", &cfg, depth, &lim, &mut found, &mut samples) {
+            Ok(st) => {
+                eprintln!("egress seq cfg={} depth<={} states={} transitions={} wall={:.1}s", cfg.name, depth, st.states, st.transitions, t0.elapsed().as_secs_f64());
+                rep.absorb(&format!("event sequences cfg={} depth<={}", cfg.name, depth), &st);
+                if rep.samples.len() < 9 {
+                    rep.samples.extend(samples.into_iter().take(1));
+                }
+            }
+            Err(e) => rep.machinery_errors.push(format!("egress seq {}: {}", cfg.name, e)),
+        }
+        for f in found {
+            if f.viol.sig.starts_with("MACHINERY") {
+                rep.machinery_errors.push(format!("{}: {}", f.viol.sig, f.viol.detail));
+            } else if f.viol.sig.starts_with("panic/") {
+                rep.violation(format!("C10/{}", f.viol.sig), f.viol.detail.clone(), f.replay.clone());
+            } else {
+                rep.found.push(f);
+            }
+        }
+    }
+    {
+        let g = std::mem::take(&mut *bfsx::BFS_AGG.lock().unwrap());
+        let mut d_total = Agg::default();
+        let mut per_cfg = BTreeMap::new();
+        let mut validations = 0u64;
+        for (name, a) in &g {
+            d_total.merge(&a.agg);
+            validations += a.validations;
+            let mut o = agg_json(&a.agg);
+            o["frame_validations_including_replays_of_prefixes"] = json!(a.validations);
+            per_cfg.insert(name.clone(), o);
+        }
+        shapes_total.extend(d_total.shapes.iter().cloned());
+        rep.add_count("evaluations", validations);
+        all.merge(&d_total);
+        rep.cov(
+            "part_d_event_sequences",
+            json!({"alphabet": "Tick, +1.1s, udp small / big (fragments) / multicast, icmp echo out, inbound big echo request, inbound udp to closed port, inbound SYN to closed port, dns query, join/leave group, neighbor answer, slow-device toggle (one frame per event)",
+                "note": "frames_validated counts DISTINCT frames here (the BFS re-executes prefixes)", "total": agg_json(&d_total), "per_configuration": per_cfg}),
+        );
+    }
+
     // ---------------------------------------------------------------- (c) C03 catalogue replies
     let t0 = std::time::Instant::now();
     let cat = cat::run(tier);
@@ -368,6 +417,41 @@ pub fn replay(art: &Value) -> i32 {
                 2
             }
         };
+    }
+    if r["harness"].as_str() == Some("egress-seq") {
+        let cfgs = r["config"].as_str().unwrap_or("");
+        let Some(c) = bfsx::cfg_by_debug(cfgs) else {
+            eprintln!("unknown sequence configuration in artefact");
+            return 2;
+        };
+        let choices: Vec<u16> = r["choices"].as_array().map(|a| a.iter().map(|x| x.as_u64().unwrap_or(0) as u16).collect()).unwrap_or_default();
+        let mut h = <bfsx::EgBfs as Harness>::new(&c);
+        h.set_trace();
+        let mut viols = vec![];
+        for (i, &ch) in choices.iter().enumerate() {
+            let en = h.enabled();
+            if ch as usize >= en.len() {
+                eprintln!("MACHINERY ERROR: replay divergence at step {}", i);
+                return 2;
+            }
+            let ev = en[ch as usize].0.clone();
+            println!("--- step {} {:?}", i, ev);
+            h.apply(&ev, &mut viols);
+            for l in h.trace() {
+                println!("    {}", l);
+            }
+        }
+        let mut seen = BTreeSet::new();
+        for v in &viols {
+            if seen.insert(v.sig.clone()) {
+                println!("violation: {} :: {}", v.sig, v.detail);
+            }
+        }
+        if seen.is_empty() {
+            println!("no violation on replay");
+            return 0;
+        }
+        return 1;
     }
     match r["part"].as_str() {
         Some("catalogue") => cat::replay(art),
